@@ -1,6 +1,7 @@
 package main
 
 import (
+	"crypto/sha256"
 	"bytes"
 	"crypto/hmac"
 	"crypto/md5"
@@ -205,9 +206,19 @@ func (s *saslServer) scram(payload []byte) (SrvAction, bool) {
 		}
 		s.gs2 = gs2
 		s.clientBare = bare
-		nb := make([]byte, 12)
-		_, _ = rand.Read(nb)
-		s.snonce = base64.StdEncoding.EncodeToString(nb)
+		// the server part of the nonce over the whole RFC 5802 "printable" range (%x21-2B / %x2D-7E),
+		// derived from the account so that a run replays
+		sum := sha256.Sum256([]byte(fmt.Sprintf("%s|%x|%d|%s", s.user, s.salt, s.iter, fields[1])))
+		var nb []byte
+		for _, b := range sum[:16] {
+			ch := byte(0x21 + int(b)%(0x7e-0x21+1))
+			if ch == ',' {
+				ch = '~'
+			}
+			nb = append(nb, ch)
+		}
+		nb = append(nb, '~', '!', '}')
+		s.snonce = string(nb)
 		s.serverFirst = fmt.Sprintf("r=%s%s,s=%s,i=%d", fields[1][2:], s.snonce, base64.StdEncoding.EncodeToString(s.salt), s.iter)
 		return challenge(s.serverFirst)
 	case s.authMsg == "":
